@@ -468,7 +468,14 @@ func (c06) possCase(c *core.C, d model.MDep, mode string) {
 				c.Cover("poss:substvar-skipped")
 			}
 		}
-		cmpList("GetPossibilities("+an+")", dep.GetPossibilities(*aa), want)
+		res := dep.GetPossibilities(*aa)
+		cmpList("GetPossibilities("+an+")", res, want)
+		// the caller owns the result: appending to it and writing into it must not reach the Dependency
+		res = append(res, dependency.Possibility{Name: "appended-by-the-caller"})
+		for i := range res {
+			res[i].Name = "overwritten-by-the-caller"
+		}
+		cmpList("GetPossibilities("+an+") after the caller appended to and overwrote an earlier result", dep.GetPossibilities(*aa), want)
 	}
 	if nontrivial {
 		c.Nontrivial()
